@@ -36,9 +36,13 @@ enum Op {
     TryReclaim,
     FreezeRead,
     MutIntoVec,
+    /// BytesMut: split the handle in two inside the thread (reference-count increment racing the siblings' drops)
+    MutSplit,
+    /// Bytes: is_unique() where the answer is known (the thread itself holds a second handle / owner-backed)
+    IsUnique,
 }
-const B_OPS: [Op; 10] = [Op::CloneRef, Op::CloneOwn, Op::Read, Op::Slice, Op::Drop, Op::TryIntoMut, Op::IntoVec, Op::IntoMut, Op::Truncate, Op::Advance];
-const M_OPS: [Op; 6] = [Op::Reserve, Op::TryReclaim, Op::FreezeRead, Op::MutIntoVec, Op::Drop, Op::Read];
+const B_OPS: [Op; 11] = [Op::CloneRef, Op::CloneOwn, Op::Read, Op::Slice, Op::Drop, Op::TryIntoMut, Op::IntoVec, Op::IntoMut, Op::Truncate, Op::Advance, Op::IsUnique];
+const M_OPS: [Op; 7] = [Op::Reserve, Op::TryReclaim, Op::FreezeRead, Op::MutIntoVec, Op::Drop, Op::Read, Op::MutSplit];
 
 #[derive(Clone, Debug)]
 struct Prog {
@@ -171,6 +175,7 @@ struct ThreadOut {
 struct Shared {
     base: usize, // address of the original buffer
     data: Vec<u8>,
+    owner: bool, // owner-backed (from_owner) storage
 }
 
 fn check_b(b: &Bytes, off: usize, zc: bool, sh: &Shared, errs: &mut Vec<String>, what: &str) {
@@ -374,6 +379,32 @@ fn run_thread(tid: u32, ops: &[Op], mut own: Vec<H>, shared_ref: Option<&Bytes>,
                     }
                 }
             }
+            Op::MutSplit => {
+                if let Some(H::M(m, model)) = own.last_mut() {
+                    let at = m.len() / 2;
+                    let p0 = m.as_ptr() as usize;
+                    let tail = m.split_off(at);
+                    let tmodel = model.split_off(at);
+                    if m[..] != model[..] || tail[..] != tmodel[..] {
+                        out.errs.push("split_off changed the contents".into());
+                    }
+                    if m.as_ptr() as usize != p0 || (tail.capacity() > 0 && tail.as_ptr() as usize != p0 + at) {
+                        out.errs.push(format!("split_off moved a half: address {:#x}/{:#x}, expected {:#x}/{:#x}", m.as_ptr() as usize, tail.as_ptr() as usize, p0, p0 + at));
+                    }
+                    own.push(H::M(tail, tmodel));
+                }
+            }
+            Op::IsUnique => {
+                // is_unique() may be asked at any time; its answer is only constrained where this thread knows it:
+                // a second handle of its own on the same storage, or owner-backed data, make it false
+                let nb = own.iter().filter(|h| matches!(h, H::B(b, _, true) if !b.is_empty())).count();
+                if let Some(H::B(b, _, zc)) = own.last() {
+                    let u = b.is_unique();
+                    if u && *zc && !b.is_empty() && (nb >= 2 || shared_ref.is_some() || sh.owner) {
+                        out.errs.push(format!("is_unique() answered true while this thread holds {nb} handles on the storage (lent ref: {}, owner-backed: {})", shared_ref.is_some(), sh.owner));
+                    }
+                }
+            }
             Op::MutIntoVec => {
                 if let Some(H::M(..)) = own.last() {
                     if let Some(H::M(m, model)) = own.pop() {
@@ -519,7 +550,7 @@ fn execute(p: &Prog, seed: u64, tag: u32) -> ExecResult {
             }
         }
     }
-    let sh = Shared { base, data: d };
+    let sh = Shared { base, data: d, owner: p.setup == 4 };
     let barrier = Barrier::new(nt);
     let mut outs: Vec<ThreadOut> = Vec::new();
     std::thread::scope(|s| {
